@@ -118,6 +118,10 @@ class _Layout:
         self.archive = os.path.join(root, "dist", f"elasticsearch-{self.version}.tar.gz")
 
     def data_path(self, spec):
+        if spec["loc"] == "beside":
+            return self.home + spec["rel"] + ("/" if spec["slash"] else "")
+        if spec["loc"] == "via":
+            return os.path.join(self.home, "..", spec["rel"]) + ("/" if spec["slash"] else "")
         base = {"home": self.home, "node": self.node_root, "out": os.path.join(self.root, "disks")}[spec["loc"]]
         return os.path.join(base, spec["rel"]) + ("/" if spec["slash"] else "")
 
@@ -625,6 +629,8 @@ def _run(case, obs, lay):
             obs.cls("data:several")
     if any(not _is_under(p, lay.home) for p in effective):
         obs.cls("data:outside-install")
+    if any(not _is_under(p, lay.home) and (p.startswith(lay.home) or "/../" in q) for p, q in zip(effective, want_data)):
+        obs.cls("data:beside-install-sharing-its-name")
     nontrivial = bool(shared) and bool(same_text)
     if nontrivial:
         obs.cls("nontrivial")
